@@ -169,16 +169,58 @@ def r2(ctx):
     ctx.ob(run.qual, "writers-from-outputs", okw, run.loc(), "%s is built by initialize_io_files from `outputs`" % wl if okw else "the writer list is not built by initialize_io_files(reads, outputs, ...)")
     # outputs = [untagged, H1, H2...] in both branches
     outs = [(s, v) for s, v in util.assignments_to(run.node, "outputs") if isinstance(v, ast.AST)]
-    ok_all = len(outs) == 2
+    params_run = util.params_of(run.node)
+
+    def shapes(e, depth=0, exclude=None):
+        """Alternative element sequences of a list-valued expression: [("one", text) | ("all", text)], following locals."""
+        if depth > 5:
+            return None
+        if isinstance(e, ast.List):
+            alts = [[]]
+            for x in e.elts:
+                if isinstance(x, ast.Starred):
+                    sub = shapes(x.value, depth + 1)
+                    if sub is None:
+                        return None
+                    alts = [a + b for a in alts for b in sub]
+                else:
+                    alts = [a + [("one", u(x))] for a in alts]
+            return alts
+        if isinstance(e, ast.BinOp) and isinstance(e.op, ast.Add):
+            l_, r_ = shapes(e.left, depth + 1, exclude), shapes(e.right, depth + 1, exclude)
+            if l_ is None or r_ is None:
+                return None
+            return [a + b for a in l_ for b in r_]
+        if isinstance(e, ast.Call) and u(e.func) == "list" and len(e.args) == 1:
+            return shapes(e.args[0], depth + 1, exclude)
+        if isinstance(e, ast.Name):
+            defs = [(s_, v_) for s_, v_ in util.assignments_to(run.node, e.id) if isinstance(v_, ast.AST) and s_ is not exclude]
+            if e.id in params_run and (not defs or e.id == "outputs"):
+                return [[("all", e.id)]]
+            if not defs:
+                return None
+            out = []
+            for s_, v_ in defs:
+                sub = shapes(v_, depth + 1, s_)
+                if sub is None:
+                    return None
+                out += sub
+            return out
+        return None
+
+    want = {(("one", "output_untagged"), ("one", "output_h1"), ("one", "output_h2")): "h1/h2 form", (("one", "output_untagged"), ("all", "outputs")): "list form"}
+    seen = set()
     for s, v in outs:
-        if isinstance(v, ast.List):
-            ok = [u(e) for e in v.elts] == ["output_untagged", "output_h1", "output_h2"]
-        elif isinstance(v, ast.BinOp) and isinstance(v.op, ast.Add):
-            ok = u(v.left) == "[output_untagged]" and u(v.right) == "outputs"
-        else:
-            ok = False
-        ctx.ob(run.qual, "outputs-order:%s" % u(v), ok, run.loc(s), "outputs = %s puts the untagged output at index 0 and haplotype i at index i" % u(v) if ok else "outputs = %s does not keep [untagged, H1, H2, ...] order" % u(v))
-    ctx.require(ok_all, "expected two constructions of `outputs` (h1/h2 form and list form)")
+        alts = shapes(v, 0, s)
+        if alts is None:
+            ctx.ob(run.qual, "outputs-order:%s" % u(v), None, run.loc(s), "cannot read the element order of outputs = %s" % u(v))
+            continue
+        for a in alts:
+            ok = tuple(a) in want
+            seen.add(tuple(a))
+            txt = "[" + ", ".join(("*" if k == "all" else "") + t for k, t in a) + "]"
+            ctx.ob(run.qual, "outputs-order:%s" % txt, ok, run.loc(s), "outputs = %s puts the untagged output at index 0 and haplotype i at index i" % txt if ok else "outputs = %s does not keep [untagged, H1, H2, ...] order" % txt)
+    ctx.require(set(want) <= seen or not outs, "expected two constructions of `outputs` (h1/h2 form and list form)")
     # writers are created in the order of outputs, one per entry
     io = ctx.func(MOD + ".initialize_io_files")
     comps = [n for n in walk_function(io.node) if isinstance(n, ast.Assign) and u(n.targets[0]) == "output_writers"]
@@ -242,6 +284,13 @@ def r2(ctx):
         acc = u(srets[0].value) if len(srets) == 1 and isinstance(srets[0].value, ast.Name) else None
         st_ = util.stmt_of(look[0])
         feeds = acc is not None and ((isinstance(st_, ast.Assign) and u(st_.targets[0]) == acc and acc in u(st_.value)) or (isinstance(st_, ast.AugAssign) and u(st_.target) == acc and isinstance(st_.op, ast.BitOr)) or (isinstance(st_, ast.Expr) and isinstance(st_.value, ast.Call) and u(st_.value.func) in ("%s.update" % acc,)))
+        if not feeds and acc is not None and isinstance(st_, ast.Expr) and isinstance(st_.value, ast.Call) and isinstance(st_.value.func, ast.Attribute) and st_.value.func.attr in ("append", "extend", "add", "update") and isinstance(st_.value.func.value, ast.Name):
+            # collected first, united afterwards: L.append(<lookup>) ... acc = set().union(*L) / set(chain.from_iterable(L))
+            coll = st_.value.func.value.id
+            adef = util.single_def(sel.node, acc)
+            cdefs = [v_ for _, v_ in util.assignments_to(sel.node, coll)]
+            fresh = len(cdefs) == 1 and isinstance(cdefs[0], (ast.List, ast.Set, ast.Call)) and u(cdefs[0]) in ("[]", "set()", "list()")
+            feeds = fresh and adef is not None and any(isinstance(x, ast.Name) and x.id == coll for x in ast.walk(adef)) and isinstance(adef, ast.Call) and (u(adef.func) in ("set().union", "set", "frozenset") or u(adef.func).endswith(".union"))
         okl = True if (inside_loop and feeds) else (False if not inside_loop else None)
         ctx.ob(sel.qual, "largest-block-of-every-chromosome-collected", okl, sel.loc(look[0]), "the reads of the largest block are added to the selection inside the chromosome loop" if okl else ("the block's reads are looked up after the chromosome loop: only the last chromosome's largest block is selected, reads of all other chromosomes are treated as untagged" if not inside_loop else "cannot see how the looked-up reads reach the returned selection"))
     rets = [n for n in walk_function(pl.node) if isinstance(n, ast.Return)]
